@@ -41,6 +41,24 @@ type Session struct {
 	Restarts  int
 	Log       io.Writer // optional transcript
 	Errors    int
+	facts     []*Term // permanent assertions (true facts about uninterpreted functions)
+	factSet   map[int]bool
+	factsSent int
+}
+
+// AddFact asserts t permanently (it must be valid in the intended interpretation).
+func (s *Session) AddFact(t *Term) {
+	if t.IsConst() {
+		return
+	}
+	if s.factSet == nil {
+		s.factSet = map[int]bool{}
+	}
+	if s.factSet[t.ID] {
+		return
+	}
+	s.factSet[t.ID] = true
+	s.facts = append(s.facts, t)
 }
 
 func NewSession(c *Ctx, kind string, timeoutMs int) (*Session, error) {
@@ -78,6 +96,7 @@ func (s *Session) start() error {
 	s.defined = map[int]bool{}
 	s.declared = map[string]bool{}
 	s.indic = map[int]bool{}
+	s.factsSent = 0
 	s.lines = make(chan string, 1024)
 	go func(r *bufio.Reader, ch chan string) {
 		for {
@@ -165,6 +184,11 @@ func (s *Session) Check(conj []*Term, wantModel []*Term) (Result, Model) {
 	for attempt := 0; attempt < 2; attempt++ {
 		var sb strings.Builder
 		var names []string
+		for ; s.factsSent < len(s.facts); s.factsSent++ {
+			f := s.facts[s.factsSent]
+			s.C.Emit(f, s.defined, s.declared, &sb)
+			fmt.Fprintf(&sb, "(assert %s)\n", ref(f))
+		}
 		for _, t := range lits {
 			s.C.Emit(t, s.defined, s.declared, &sb)
 			if t.Op == OVar {
